@@ -83,17 +83,22 @@ def proto_claims(cases):
 
 
 def drop_variants(text):
-    """every document obtained by deleting one element (below the root's children)"""
+    """every document obtained by deleting one element (the envelope's own children - mosID, ncsID, messageID, the
+    message element - included)"""
     root = ET.fromstring(text)
-    parents = [(p, i) for p in root.iter() for i in range(len(p)) if p is not root]
+    parents = [(p, i) for p in root.iter() for i in range(len(p))]
     out = []
     for k in range(len(parents)):
         r2 = ET.fromstring(text)
-        ps = [(p, i) for p in r2.iter() for i in range(len(p)) if p is not r2]
+        ps = [(p, i) for p in r2.iter() for i in range(len(p))]
         p, i = ps[k]
         del p[i]
         out.append(ET.tostring(r2, encoding='unicode'))
     return out
+
+
+LIVE_RULE = ('; also 30 [300] histories of 3..9 messages merged into one live RunningOrder object, each step judged as the merge of that '
+             'message into the state before it')
 
 
 class AddCheck:
@@ -173,10 +178,42 @@ class AddCheck:
             log('%d disagreements, none is a violation by itself: searching all %d cases with the oracle'
                 % (len(dis), len(cases)))
             _, vio, _ = self.evaluate(cases, force_oracle=True)
-        return {'evaluations': st['n'], 'distinct': len(st['sigs']), 'rule': self.rule,
-                'samples': st['samples'], 'distribution': dict(st['dist']),
-                'disagreements': dis, 'violations': vio, 'exhaustive': False,
-                'extra': {'corpus_cases': len(corpus), 'fuzzed_cases': len(fuzz)}}
+        # the same on live objects: every step of a history merged into ONE RunningOrder object is judged as the merge of
+        # that message into the state before it (what an object remembers from earlier merges must not matter)
+        hn, hdis, hvio = self.run_live(list(live_histories(tier, rng, n_quick=30, n_thorough=300)))
+        return {'evaluations': st['n'] + hn, 'distinct': len(st['sigs']), 'rule': self.rule + LIVE_RULE,
+                'samples': st['samples'], 'distribution': dict(st['dist'], live_history_steps=hn),
+                'disagreements': dis + hdis, 'violations': vio + hvio, 'exhaustive': False,
+                'extra': {'corpus_cases': len(corpus), 'fuzzed_cases': len(fuzz), 'live_history_steps': hn}}
+
+    def run_live(self, hcases, only_last=False):
+        dis, vio = [], []
+        n = 0
+        for c, (isteps, msteps) in zip(hcases, engine.hist_cases(hcases)):
+            prev = c['ro']
+            for k, (a, b) in enumerate(zip(isteps, msteps)):
+                n += 1
+                if 'classerr' in a or 'classerr' in b:
+                    break
+                case = {'ro': prev, 'msg': c['msgs'][k], 'meta': {'cls': a.get('cls'), 'layout': 'live', 'n': k}}
+                hist = {'kind': 'hist', 'ro': c['ro'], 'msgs': c['msgs'][:k + 1]}
+                if self.obs_case(case, a) != self.obs_case(case, b) and (not only_last or k == len(isteps) - 1):
+                    claim = proto_claims([case])[0] if self.needs_claims else None
+                    try:
+                        what = self.violation(case, a, claim, self.before_tree(case))
+                    except Exception as e:
+                        what = None
+                    if what:
+                        vio.append({'what': 'step %d of a history on one RunningOrder object: %s' % (k, what), 'case': hist,
+                                    'impl': self.obs_case(case, a), 'expected': self.obs_case(case, b)})
+                    dis.append({'case': hist, 'impl': self.obs_case(case, a), 'model': self.obs_case(case, b), 'explained': bool(what)})
+                    break
+                if 'tree' in a:
+                    try:
+                        prev = X.tree_to_string(a['tree'])
+                    except Exception:
+                        break
+        return n, dis, vio
 
     # -- single-case evaluation used by replay and shrink
     def case_violation(self, case):
@@ -188,11 +225,16 @@ class AddCheck:
         case = rep.get('case') or {}
         if not case:
             return {'violation': False, 'note': 'replay file names a broken theorem or build, not an input: ' + str(rep.get('detail'))}
+        if case.get('kind') == 'hist':
+            n, dis, vio = self.run_live([case], only_last=True)
+            return {'violation': bool(vio), 'what': vio[0]['what'] if vio else None, 'disagreements': len(dis)}
         what, io, mo = self.case_violation(case)
         return {'violation': bool(what), 'what': what, 'impl': self.obs_case(case, io), 'model': self.obs_case(case, mo)}
 
     def shrink(self, v):
         case = dict(v['case'])
+        if case.get('kind') == 'hist':
+            return v
         what0 = v['what']
         budget = 300
         changed = True
